@@ -30,7 +30,7 @@ PROPS["C01"] = {
             "UPDATE / DELETE statements over 1-12 tables, executed as SQL text through Session.ExecQuery (direct statement values through engine.Evaluate*), "
             "with generated flushes; after every k-th statement and at the end SELECT * of each table is compared as a sequence with the reference model, "
             "row ids must be stable, strictly increasing and never reused, and sys_schema / sys_pages must equal the declared schemas; the end state is compared again after a flush + reload and after USE of another database and back (close and reopen without log replay). "
-            "One CREATE TABLE in eight uses a name differing from an existing table's only in letter case; the end state is compared once more after a clean shutdown and restart. Non-trivial: an UPDATE/DELETE on a table that later goes through >=1 more leaf split, or >=2 switches between tables among the inserts, or >=7 tables (sys_pages split); distinct by case JSON.",
+            "One CREATE TABLE in eight uses a name differing from an existing table's only in letter case; the end state is compared once more after a clean shutdown and restart. An idle database exists on either side of the one under test (also in C02-C04, C07, C08, C14, C16). Non-trivial: an UPDATE/DELETE on a table that later goes through >=1 more leaf split, or >=2 switches between tables among the inserts, or >=7 tables (sys_pages split); distinct by case JSON.",
     "technique": "stateful property-based testing (rapid) against an in-memory reference model",
     "level_text": "Model-based random search over statement histories biased to cross the structural thresholds (9-cell leaves, catalog splits, multi-level trees in the thorough tier). Finds lost/duplicated/resurrected/leaked rows and catalog drift on the explored histories; it cannot show their absence in general.",
     "level_note": "Trusted: the reference model (harness/model) and the comparison code. The flush timer is replaced by generated explicit flushes (hook VerifNoTimer); concurrency is C13's business.",
@@ -72,7 +72,7 @@ PROPS["C04"] = {
             "the one in shutdown, and the one that ends recovery of the crashed image) is recorded through the hooks and its torn states are composed: pre-flush file + subset S of the flushed pages + old header, "
             "all 2^|D| subsets for |D|<=6 else >=64 sampled incl. all singletons and co-singletons; each composed image is recovered with the real InitStorage and compared with the model of all statements acknowledged "
             "before the flush began (an in-flight CREATE TABLE may or may not exist). Subsets inside the listed finding's region (proper non-empty subsets of a flush that wrote a page at/after the on-disk allocation frontier) are "
-            "excluded from the verdict, counted, and a sample of them is recovered in a child process for the statistics. Low-rate profiles: 4-8 tables up front with further CREATE TABLEs (a flush has to publish a new catalog root), and an unflushed 1040-1400 row bulk load (one flush of several hundred pages). After recovering a torn state (first, last, all-pages and every third composition) one more INSERT per table is issued (newest table first), the process dies again without a flush and the second recovery is compared too. Non-trivial: a case with a flush of >=2 dirty pages for which a proper non-empty subset outside the region was recovered; distinct by case JSON.",
+            "excluded from the verdict, counted, and a sample of them is recovered in a child process for the statistics. Low-rate profiles: 4-8 tables up front with further CREATE TABLEs (a flush has to publish a new catalog root), and an unflushed 1040-1400 row bulk load (one flush of several hundred pages). After recovering a torn state (first, last, all-pages and every third composition) one more INSERT per table is issued (newest table first), the process dies again without a flush and the second recovery is compared too. One case in four carries refused INSERTs between its statements. Non-trivial: a case with a flush of >=2 dirty pages for which a proper non-empty subset outside the region was recovered; distinct by case JSON.",
     "technique": "fault injection by composing torn flush states (page subsets) per recorded flush of generated histories (rapid + hooks), recovery compared with a reference model",
     "level_text": "Per generated history every flush is attacked with all (or >=64 sampled) page-subset torn states at page granularity, which covers every write order Go's map iteration could take; histories are random. The region of the listed structural finding is excluded by construction and counted.",
     "level_note": "Page-granular tearing (a torn 4096-byte write is not generated); crash = process death. Trusted: the composition (checked against the real file after each flush by construction: S=D + new header is the real post image), reference model.",
@@ -124,7 +124,7 @@ PROPS["C06"] = {
     "rule": "rapid-generated cases: 1-3 tables (INT key over {0..3} so keys repeat and rows stay unmatched, shared and table-unique column names, 0-12 rows, empty tables included) and 1-8 queries with a left-deep chain of 1-2 joins "
             "(JOIN / INNER JOIN / LEFT JOIN / RIGHT JOIN, the same table twice under two aliases allowed), ON = 1-2 comparisons (=, <, !=, >=; AND or OR) between columns of tables that cannot be NULL-padded at that point (plus, in a second join, equality against a column of a NULL-padded table, which is never true for the padded rows), "
             "select list * or qualified/unique-unqualified columns, optional WHERE on a never-padded column, all as SQL text; 1 in 6 queries misaddresses a column on purpose (unqualified but present on both sides; name-qualified although aliased; unknown) and must be rejected. "
-            "Oracle: reference nested loops + NULL padding compared as multisets of value tuples, headers compared. Tables may share a VARCHAR column s and ON may contain s = s next to the INT comparison (composite keys whose printed concatenations coincide). Non-trivial: two-join chain, or self-join, or a NULL-padded row together with a duplicated join key, or a must-be-rejected query; distinct by (tables, query) JSON.",
+            "Oracle: reference nested loops + NULL padding compared as multisets of value tuples, headers compared. Tables may share a VARCHAR column s and ON may contain s = s next to the INT comparison (composite keys whose printed concatenations coincide). One ON conjunct in twelve compares two literals; in one case of four sys_schema takes part in the joins. Non-trivial: two-join chain, or self-join, or a NULL-padded row together with a duplicated join key, or a must-be-rejected query; distinct by (tables, query) JSON.",
     "technique": "property-based differential testing (rapid) against a reference join evaluator, multiset comparison; negative cases for addressing rules",
     "level_text": "Random search over small tables and join chains against the relational definition. Search, not proof.",
     "level_note": "Trusted: harness/ref. ON/WHERE never touch NULL-padded columns (SQL three-valued logic is outside the property). Result order is not compared.",
@@ -188,7 +188,7 @@ PROPS["C17"] = {
             "timer ticks (VerifTickAll runs flushPages on every store that owns a flush timer right now, oldest or newest first - including stores a USE left behind), clean restarts and crash restarts. "
             "Oracle: a model database per name; every operation's outcome class, storage.ShowDB() = the created names, the selected database compared after every USE / tick / statement, every database selected in turn and compared at each restart and at the end, "
             "row ids stable and never reused per database, and finally one more insert per table of every database must succeed. "
-            "One case in four draws full-range values including rows of exactly 400 bytes. Non-trivial: >=2 databases with data, >=2 switches, >=1 tick after a switch and >=1 restart; distinct by case JSON.",
+            "One case in four draws full-range values including rows of exactly 400 bytes. Database names include prefix-related ones (shop/shop2/sho, d/d1/d1x). Non-trivial: >=2 databases with data, >=2 switches, >=1 tick after a switch and >=1 restart; distinct by case JSON.",
     "technique": "stateful property-based testing (rapid) of the session layer against a per-database reference model, with the flush timers made explicit and deterministic by hooks",
     "level_text": "Random search over USE/CREATE DATABASE/restart interleavings with deterministic timer ticks. Search, not proof.",
     "level_note": "Trusted: the store registry hook (VerifTickAll does exactly what each live 100 ms timer does), lower-case database names (one file pair per lower-cased name).",
@@ -200,7 +200,7 @@ PROPS["C18"] = {
     "rule": "rapid-generated cases: a session state (database selected and populated with four tables over all four column types holding NULLs, an empty table; no USE yet; failed USE; USE of an empty database; the populated database with the REAL 100 ms flush timer running and statements held open for 130 ms at a page lookup, so that ticks fall due in the middle of statements) and 5-40 statements executed through Session.ExecQuery: "
             "4 in 5 are drawn from the full statement grammar with identifiers from the same pools the schema uses, so that they resolve tables and columns and then apply AVG/COUNT/ORDER BY/comparisons/INSERT/UPDATE values to columns of arbitrary type and to NULLs, "
             "or miss, duplicate or ambiguously name columns; 1 in 5 from a list of 70 targeted statements (aggregates over VARCHAR/BOOLEAN/NULL, ORDER BY over NULLs and ambiguous keys, mistyped comparisons, catalog tables, degenerate DDL). "
-            "Oracle: the call returns nil or an error within 20 s, never panics (recover), the worker never dies (journal), and the session still answers a SELECT afterwards. A low-rate 'bulk' state (700 rows in t2, whole-table statements, 511-1030 row INSERTs). The schema has 23-25 character column names; ~45 targeted statements just outside the grammar (avg(*), count(), aggregates in WHERE/ORDER BY/VALUES); one generated statement in five is mutated at token level. One statement in 40 carries a condition of 12-200 terms. Non-trivial: the statement parses and the engine refuses it (an error path); distinct by (state, SQL text).",
+            "Oracle: the call returns nil or an error within 20 s, never panics (recover), the worker never dies (journal), and the session still answers a SELECT afterwards. A low-rate 'bulk' state (700 rows in t2, whole-table statements, 511-1030 row INSERTs). The schema has 23-25 character column names; ~45 targeted statements just outside the grammar (avg(*), count(), aggregates in WHERE/ORDER BY/VALUES); one generated statement in five is mutated at token level. One statement in 40 carries a condition of 12-200 terms. Shard 0 runs one fixed idle session (5.6 s without a statement, real timer) followed by USE and DML. Non-trivial: the statement parses and the engine refuses it (an error path); distinct by (state, SQL text).",
     "technique": "grammar-based fuzzing of the executor (rapid): type- and name-confused statements against NULL-bearing tables; oracle: no panic / no hang / session survives",
     "level_text": "Random search for crashing statements. Search, not proof.",
     "level_note": "A hang is declared after 20 s for one statement. Parse-level crashes are C09's business (counted here as parse-error).",
@@ -212,7 +212,7 @@ PROPS["C15"] = {
     "rule": "operation sequences over LRUCache.set (clean or already-dirty page, same or fresh page object) / get / markDirty / markClean, run against the real cache and a list-based reference model written from the property's text; after EVERY step the boolean of set, "
             "(page identity, found) of get, resident key set, recency order (read from the internal list), index/list consistency and size <= capacity are compared. (a) bounded-exhaustive: all sequences of depth 5 (thorough: 6) over capacities 1-3 with capacity+1 keys "
             "(alphabet 10-20 operations, split over the shards by first operation); (b) rapid: sequences of 20-400 operations at capacities 1-6 and 200-2000 operations at capacities 5-64. "
-            "Pages are a mix of leaf and internal nodes; one random case in a hundred uses capacities 1025-2500 with run-length insertions. The reference model owns its dirty flags (compared with the page's own flag after every step); the LSN of a dirty transition varies, downwards too. Lookups come in bursts of up to 300. Non-trivial: the sequence performed an eviction that had to skip a dirty entry, or an insertion that was refused; distinct by sequence JSON.",
+            "Pages are a mix of leaf and internal nodes; one random case in a hundred uses capacities 1025-2500 with run-length insertions. The reference model owns its dirty flags (compared with the page's own flag after every step); the LSN of a dirty transition varies, downwards too. Lookups come in bursts of up to 300. Keys are page offsets (uint64); scans over consecutive pages are an operation. Non-trivial: the sequence performed an eviction that had to skip a dirty entry, or an insertion that was refused; distinct by sequence JSON.",
     "technique": "model-based property testing (rapid) + bounded-exhaustive enumeration of operation sequences against a reference LRU",
     "level_text": "Exhaustive to depth 5/6 in small scopes, random beyond. Search, not proof.",
     "level_note": "Trusted: the reference model in the test (list with dirty flags). In-package: reads LRUCache.list and .cache directly.",
@@ -226,7 +226,7 @@ PROPS["C11"] = {
             "close/reopen and crash + WAL recovery; after EVERY operation a page-graph walker written from the definition checks the catalog trees and every user tree of the file: keys strictly ascending within and across leaves, every key inside the bounds given by its ancestors' separators, "
             "separators strictly ascending, all leaves at one depth, no page reachable twice over all trees, no node over capacity and every node encodes to 4096 bytes, left-to-right sibling chain = leaves in tree order = reverse of the right-to-left chain, every live key found by findCell from the root and no tombstoned one, live keys = what the history implies. "
             "Plus a fixed history of 1400 logged rows in one table with reopen and crash + recovery in between (start-up replay over a three-level tree; shard 3), and a direct BTree.insert driver: 200 000 ascending keys into the in-memory store (4 levels; shard 0), 3 000 keys on a file store with flush + cold cache between batches (shard 1; thorough: 200 000 on file, shard 2), walker run at growing intervals. "
-            "One history in five runs over 7-11 trees (multi-page catalog). Non-trivial: a tree of height >= 2 with >= 3 leaves and a reload between two splits of the same tree; distinct by history JSON.",
+            "One history in five runs over 7-11 trees (multi-page catalog). Tree names are chosen so that several are proper prefixes of names created earlier. Non-trivial: a tree of height >= 2 with >= 3 leaves and a reload between two splits of the same tree; distinct by history JSON.",
     "technique": "stateful property-based testing (rapid) with a structural invariant walker after every step; deterministic large-tree driver",
     "level_text": "Every reachable tree state of the generated histories is checked against the full shape invariant; deep trees (3-4 levels) are reached by the direct driver. Search, not proof.",
     "level_note": "Trusted: the walker (in-package, reads node structs). Keys ascend (engine's shared counter / WAL replay); random-order insertion is outside the property.",
@@ -251,7 +251,7 @@ PROPS["C20"] = {
     "rule": "rapid-generated console sessions fed to the real Terminal (NewTerminal / ReadLine, separate reader and writer): 1-6 statements of 1-10 tokens each ending in ';', with single- and double-quoted literals containing semicolons, the other quote character, spaces, multi-byte runes, comment openers; "
             "line breaks (CR, LF CR, CR LF, with trailing spaces, empty lines) at token boundaries and Enter pressed inside a literal (which the console turns into a space, also right after an in-literal semicolon), several statements per line or one over many lines; the byte stream is delivered bytewise (typed), in one piece (pasted), or in generated chunk sizes 1-40 that split multi-byte runes and escape sequences; "
             "1 in 6 sessions is wrapped in bracketed-paste markers. Oracle: the statements returned by successive ReadLine calls, concatenated, are exactly the entered statements, once each and in order, equal after collapsing white space outside quotes (quoted text byte for byte). "
-            "Literals include non-graphic characters (zero-width joiners, soft hyphen, BOM, private use, emoji ZWJ sequences). Second part: the console PROGRAM (this test binary in a child mode calling main()) on a pseudo terminal: lines of valid and failing statements are typed, then the database it left behind must hold exactly the valid INSERTs, in order. Non-trivial: a literal containing ';' and a statement that spans two lines or shares its line; distinct by case JSON.",
+            "Literals include non-graphic characters (zero-width joiners, soft hyphen, BOM, private use, emoji ZWJ sequences). Second part: the console PROGRAM (this test binary in a child mode calling main()) on a pseudo terminal: lines of valid and failing statements are typed, then the database it left behind must hold exactly the valid INSERTs, in order. Third part: statements corrected while typing (cursor keys, insertions) against a small model of the line editor. Non-trivial: a literal containing ';' and a statement that spans two lines or shares its line; distinct by case JSON.",
     "technique": "property-based testing (rapid) of the terminal line discipline with a by-construction oracle (in-package main)",
     "level_text": "Random search over statement lists, layouts and read chunkings. Search, not proof.",
     "level_note": "A line break typed inside a literal becomes a space (the console's documented line joining), the oracle expects exactly that; no backslashes in literals; inputs stay below the terminal's 4096-rune line limit. ErrPasteIndicator is treated as 'line data returned' as x/term documents.",
